@@ -89,6 +89,14 @@ type Closure struct {
 	Name   string
 }
 
+// ChanV: a buffered channel in a single-threaded run: a FIFO of at most Cap values (held as the value of an
+// Object, so that the channel itself is a *Ptr and nil channels are nil pointers).
+type ChanV struct {
+	Buf    []Value
+	Cap    int
+	Closed bool
+}
+
 type MapEntry struct{ K, V Value }
 type MapObj struct {
 	ID      int
